@@ -15,7 +15,7 @@ SHIMS = os.path.join(VERIF, "shims")
 HARNESS = os.path.join(VERIF, "harness")
 CACHE = os.path.join(VERIF, ".cache")
 
-SHIM_CRATES = ["http", "bytes", "httpdate", "memchr", "tokio", "flate2", "smallvec"]
+SHIM_CRATES = ["http", "bytes", "httpdate", "memchr", "tokio", "flate2", "smallvec", "http-body"]
 
 ENV = dict(os.environ)
 ENV.update(
